@@ -52,6 +52,7 @@ var w3Contracts = []string{"alphabet", "audit", "balance", "container", "neofs",
 
 var w3CoqContract = map[string]string{
 	"alphabet": "KAlphabet", "audit": "KAudit", "balance": "KBalance", "container": "KContainer",
+	"alphabet_hi": "KAlphabet", "alphabet_last": "KAlphabet",
 	"neofs": "KNeoFS", "neofs_nd": "KNeoFS", "neofsid": "KNeoFSID", "netmap": "KNetmap", "nns": "KNNS",
 	"processing": "KProcessing", "proxy": "KProxy", "reputation": "KReputation",
 }
@@ -488,6 +489,12 @@ func (w *w3World) setup() {
 	w.deploy("proxy", w.C["proxy"], cm, nil)
 	w.regNNS("proxy", w.H["proxy"])
 	w.deploy("alphabet", w.C["alphabet"], cm, []any{false, w.H["netmap"], w.H["proxy"], "az", int64(0), int64(w.N)})
+	// two more Alphabet contracts: one whose index is NOT below the committee
+	// size (nobody may ever emit through it), one with the last valid index
+	w.deploy("alphabet_hi", w.C["alphabet"], w.princ("deployer2"), []any{false, w.H["netmap"], w.H["proxy"], "hi", int64(w.N), int64(w.N + 1)})
+	if w.N > 1 {
+		w.deploy("alphabet_last", w.C["alphabet"], w.princ("A"), []any{false, w.H["netmap"], w.H["proxy"], "last", int64(w.N - 1), int64(w.N)})
+	}
 	procHash := w3HashFor(w.C["processing"], cm.Hash)
 	cfg := []any{"InnerRingCandidateFee", int64(10), "WithdrawFee", int64(7)}
 	w.deploy("neofs", w.C["neofs"], cm, []any{false, procHash, w3Pubs(w.lk), cfg})
@@ -503,7 +510,11 @@ func (w *w3World) setup() {
 	w.rk0, w.irc0 = w.rk, w.princ("ir-committee").Hash
 
 	// GAS for the contracts that pay out
-	w.gasTransfer(w.H["alphabet"], 1000_0000_0000)
+	for _, inst := range []string{"alphabet", "alphabet_hi", "alphabet_last"} {
+		if h, ok := w.H[inst]; ok {
+			w.gasTransfer(h, 1000_0000_0000)
+		}
+	}
 	U := w.princ("U")
 	for _, inst := range []string{"neofs", "neofs_nd"} {
 		w.must(w.send([]*w3Princ{U}, w.gas, "transfer", U.Hash, w.H[inst], int64(100_0000_0000), nil), "deposit")
@@ -731,6 +742,7 @@ type w3Call struct {
 	ViaData  any
 	Note     string
 	NotaryOf bool
+	inst     string // contract instance the call addresses (set by the sweep)
 	thinSets bool // repeat / cross-replay call: fewer signer sets in the quick tier
 	// Related: principals that are legitimate for an ENCLOSING object (owners
 	// of the zones above an NNS name, ...) but not required by this call; they
@@ -805,7 +817,7 @@ func (r *w3Req) Eval(w *w3World, c w3Ctx, a *w3Call, notaryOff bool) bool {
 		}
 		return false
 	case "RAlphaKeyAt":
-		return c.witnessed(w3hp(w.princ("member0")))
+		return c.witnessed(w3hp(w.alphaKeyAt(a.inst)))
 	case "RAddr", "RKey", "RKeyOfBlob", "RKeyField":
 		return c.witnessed(w3hp(argP(r.I)))
 	case "RIRMember":
@@ -855,7 +867,7 @@ func (r *w3Req) Eval(w *w3World, c w3Ctx, a *w3Call, notaryOff bool) bool {
 }
 
 func w3MKey(contract, method string, arity int) string {
-	return fmt.Sprintf("%s.%s/%d", strings.TrimSuffix(contract, "_nd"), method, arity)
+	return fmt.Sprintf("%s.%s/%d", w3Src(contract), method, arity)
 }
 
 // ---------------------------------------------------------------------------
@@ -1167,6 +1179,14 @@ func (w *w3World) chainLit(o *w3Out, notaryOff bool) string {
 }
 
 func (w *w3World) chainLitWith(o *w3Out, notaryOff bool, rk []*wallet.Account, irc util.Uint160) string {
+	return w.chainLitFor(o, "alphabet", notaryOff, rk, irc)
+}
+
+func (w *w3World) chainLitFor(o *w3Out, alphaInst string, notaryOff bool, rk []*wallet.Account, irc util.Uint160) string {
+	keyAt := "[]"
+	if p := w.alphaKeyAt(alphaInst); p != nil {
+		keyAt = o.pool.Ref(p.Hash.BytesBE())
+	}
 	hl := func(ks []*wallet.Account) string {
 		var xs []string
 		for _, k := range ks {
@@ -1176,7 +1196,7 @@ func (w *w3World) chainLitWith(o *w3Out, notaryOff bool, rk []*wallet.Account, i
 	}
 	r := func(name string) string { return o.pool.Ref(w.princ(name).Hash.BytesBE()) }
 	return fmt.Sprintf("mkChain %s %s %s %s %s %s %s %s %s %s", r("alpha"), r("committee"), o.pool.Ref(irc.BytesBE()), r("neofs-alpha"),
-		hl(w.lk), hl(rk), r("member0"), o.pool.Ref(w.gas.BytesBE()), o.pool.Ref(w.neo.BytesBE()), BoolLit(notaryOff))
+		hl(w.lk), hl(rk), keyAt, o.pool.Ref(w.gas.BytesBE()), o.pool.Ref(w.neo.BytesBE()), BoolLit(notaryOff))
 }
 
 func w3ArgsString(args []any) string {
@@ -1283,8 +1303,11 @@ func (w *w3World) runCall(o *w3Out, v *w3Variant, call *w3Call, set w3SigSet, re
 	rec := w3Record{N: w.N, Inst: inst, Method: v.M, Arity: v.Arity, Variant: v.Label, Signers: set.Name, Accounts: names,
 		Class: class, Fault: r.Fault, Effect: effect, Diff: d, Events: len(r.Events), Args: w3ArgsString(call.Args)}
 	chainName := "ch_main"
-	if notaryOff {
+	switch inst {
+	case "neofs_nd":
 		chainName = "ch_nd"
+	case "alphabet_hi", "alphabet_last":
+		chainName = "ch_" + inst
 	}
 	coqKey := fmt.Sprintf("(%s, %q, %d%%nat)", w3CoqContract[inst], v.M, v.Arity)
 	o.cases = append(o.cases, fmt.Sprintf("mkCase %s %s %s %s %s", coqKey, o.ctxRef(ps, caller), o.argRef(chainName, call), class, BoolLit(effect)))
@@ -1495,7 +1518,13 @@ func (w *w3World) runSets(o *w3Out, v *w3Variant, req *w3Req, next func() *w3Cal
 	return lastOK
 }
 
-func w3Src(inst string) string { return strings.TrimSuffix(inst, "_nd") }
+// w3Src: the contract an instance name stands for ("neofs_nd", "alphabet_hi", ...).
+func w3Src(inst string) string {
+	if i := strings.Index(inst, "_"); i >= 0 {
+		return inst[:i]
+	}
+	return inst
+}
 
 func (w *w3World) methodOf(inst, name string, arity int) *manifest.Method {
 	ms := w.C[w3Src(inst)].Manifest.ABI.Methods
@@ -1510,7 +1539,20 @@ func (w *w3World) methodOf(inst, name string, arity int) *manifest.Method {
 // fillPrinc completes the principals of a call from its typed arguments: a
 // Hash160 argument designates that account, a PublicKey argument the standard
 // account of the key (principals set by the builder are kept).
+// alphaKeyAt: the committee member an Alphabet contract instance obeys
+// (neo.GetCommittee()[index]); nil when its index is not below the committee size.
+func (w *w3World) alphaKeyAt(inst string) *w3Princ {
+	switch inst {
+	case "alphabet_hi":
+		return nil
+	case "alphabet_last":
+		return w.princ(fmt.Sprintf("member%d", w.N-1))
+	}
+	return w.princ("member0")
+}
+
 func (w *w3World) fillPrinc(v *w3Variant, c *w3Call) {
+	c.inst = v.C
 	m := w.methodOf(v.C, v.M, v.Arity)
 	if m == nil {
 		return
@@ -1561,6 +1603,9 @@ func (w *w3World) sweep(o *w3Out, table map[string]*w3Req, variants []*w3Variant
 	var oks []w3OKCall
 	for _, v := range variants {
 		v := v
+		if _, deployed := w.H[v.C]; !deployed {
+			continue // an instance that does not exist on this chain
+		}
 		req := table[w3MKey(v.C, v.M, v.Arity)]
 		ok := w.runSets(o, v, req, func() *w3Call { c := v.Build(w, seq); seq++; return c })
 		if ok == nil || ok.Via != "" || req == nil {
@@ -1635,6 +1680,9 @@ func (w *w3World) boundaryPass(o *w3Out, table map[string]*w3Req, variants []*w3
 	seq := 1 << 20
 	for _, v := range variants {
 		if v.Repeat || v.Boundary || strings.HasPrefix(v.M, "_") || v.M == "update" {
+			continue
+		}
+		if _, deployed := w.H[v.C]; !deployed {
 			continue
 		}
 		req := table[w3MKey(v.C, v.M, v.Arity)]
@@ -2014,6 +2062,12 @@ func (o *w3Out) write(w *w3World, path string, nonsafe []string, agree []string,
 	body := strings.Join(o.cases, ";\n")
 	sb.WriteString(o.pool.Defs())
 	fmt.Fprintf(&sb, "Definition ch_main : chain := %s.\nDefinition ch_nd : chain := %s.\n", chMain, chND)
+	for _, inst := range []string{"alphabet_hi", "alphabet_last"} {
+		if _, ok := w.H[inst]; ok {
+			fmt.Fprintf(&sb, "(* the Alphabet contract instance %s: another index *)\nDefinition ch_%s : chain := %s.\n", inst, inst,
+				w.chainLitFor(o, inst, false, w.rk0, w.irc0))
+		}
+	}
 	if chIR2 != "" {
 		fmt.Fprintf(&sb, "(* after the re-designation of the NeoFSAlphabet role *)\nDefinition ch_ir2 : chain := %s.\n", chIR2)
 	}
